@@ -248,6 +248,10 @@ func callForced(choices []uint32, cont func(k int, n uint32) uint32, tailKey uin
 	var o outcome
 	s.Run(func() { o.Pw, o.Err = g() })
 	o.Panic, o.Cap, o.S = s.Panic, s.CapHit, s
+	if s.NoRep != nil {
+		// the engine, not the code under test, failed: never a verdict
+		panic(&ev.Inc{Why: s.IndexLevelOK().Error()})
+	}
 	return o
 }
 
